@@ -177,8 +177,39 @@ def implies(facts, goal, nonneg_atoms=True):
 
 
 def _feasible(sys_, atoms):
-    cur = sys_
-    for x in atoms:
+    """Fourier-Motzkin with a deterministic min-fill elimination order and duplicate removal."""
+    def key(i):
+        return (tuple(sorted(((repr(a), v) for a, v in i.co.items()))), i.c)
+
+    def dedupe(lst):
+        best = {}
+        for i in lst:
+            # normalise by the smallest-repr atom's coefficient magnitude to merge scalar multiples
+            if i.co:
+                k0 = min(i.co, key=repr)
+                s = abs(i.co[k0])
+                co = {a: v / s for a, v in i.co.items()}
+                c = i.c / s
+            else:
+                co, c = {}, i.c
+            kk = tuple(sorted((repr(a), v) for a, v in co.items()))
+            if kk not in best or c < best[kk][1]:
+                best[kk] = (co, c)
+        return [Ineq(co, c) for co, c in (best[k] for k in sorted(best))]
+
+    cur = dedupe(sys_)
+    remaining = sorted(set(atoms), key=repr)
+    while remaining:
+        # contradiction already visible?
+        for i in cur:
+            if not i.co and i.c < 0:
+                return False
+        def cost(x):
+            p = sum(1 for i in cur if i.co.get(x, 0) > 0)
+            n = sum(1 for i in cur if i.co.get(x, 0) < 0)
+            return (p * n - p - n, repr(x))
+        x = min(remaining, key=cost)
+        remaining.remove(x)
         pos, neg_, rest = [], [], []
         for i in cur:
             c = i.co.get(x, 0)
@@ -200,8 +231,8 @@ def _feasible(sys_, atoms):
                     if a != x:
                         co[a] = co.get(a, 0) + v * cp
                 new.append(Ineq(co, p.c * cn + n.c * cp))
-        cur = new
-        if len(cur) > 4000:
+        cur = dedupe(new)
+        if len(cur) > 20000:
             return True  # give up: treat as feasible (cannot prove)
     for i in cur:
         if not i.co and i.c < 0:
